@@ -42,6 +42,8 @@ def fresh(desc, base="v", run=None):
             return Opaque(("dropped", base))
         if tag == "dict_empty":
             return DictV({})
+        if tag == "cdict":
+            return DictV({k: fresh(d, f"{base}[{k!r}]", run) for k, d in desc[1].items()})
         if tag == "clist":
             return ListV([fresh(x, f"{base}[{i}]", run) for i, x in enumerate(desc[1])])
         if tag == "nd":
